@@ -18,7 +18,7 @@ from pathlib import Path
 
 from . import core
 from . import flat_export as fe
-from .c15 import neutralise, SEEDS, ADVERSARIAL_SEEDS, ALL_FEATURES
+from .c15 import neutralise, SEEDS, ADVERSARIAL_SEEDS, ALL_FEATURES, WIDE_SEEDS
 
 CONSTANT_TYPES = {"Num", "Str", "Bytes", "NameConstant", "Ellipsis"}
 
@@ -43,6 +43,39 @@ def positioned_ast_types():
     return out
 
 
+def python_oracle(tree):
+    """Independent oracle (plain Python over `ast.walk`): one (type, line) per node that carries a line number, with
+    the three documented adjustments — constants renamed by kind, a minus sign folded into a numeric literal, import
+    aliases skipped."""
+    def kind(v):
+        if isinstance(v, str):
+            return "Str"
+        if isinstance(v, bytes):
+            return "Bytes"
+        if v is True or v is False or v is None:
+            return "NameConstant"
+        if v is Ellipsis:
+            return "Ellipsis"
+        return "Num"
+
+    def is_neg_literal(n):
+        return (isinstance(n, ast.UnaryOp) and isinstance(n.op, ast.USub) and isinstance(n.operand, ast.Constant)
+                and kind(n.operand.value) == "Num")
+
+    folded_operands = {id(n.operand) for n in ast.walk(tree) if is_neg_literal(n)}
+    out = collections.Counter()
+    for n in ast.walk(tree):
+        if not hasattr(n, "lineno") or isinstance(n, ast.alias) or id(n) in folded_operands:
+            continue
+        if is_neg_literal(n):
+            out[("Num", n.lineno)] += 1
+        elif isinstance(n, ast.Constant):
+            out[(kind(n.value), n.lineno)] += 1
+        else:
+            out[(type(n).__name__, n.lineno)] += 1
+    return out
+
+
 class E2E:
     def __init__(self, ctx, drv, mods):
         self.ctx = ctx
@@ -57,11 +90,21 @@ class E2E:
         tree = ast.parse(stored)
         r = self.drv.call("c01.spec", tree=fe.export(tree))
         self.ctx.dist("hypothesis treeOk holds on the (tweaked) real tree" if r["wf"] else "hypothesis treeOk FAILS on the (tweaked) real tree")
+        spec_nodes = collections.Counter((t, ln) for t, ln in r["nodes"])
+        if spec_nodes != python_oracle(tree):
+            # the Lean specification and the independent Python reading of the property text disagree
+            self.ctx.broken.append("corr:c01.spec-vs-python-oracle")
+            self.ctx.cov.setdefault("corr_replay", {"stored": ast.unparse(tree)[:400],
+                                                    "spec_minus_oracle": sorted((spec_nodes - python_oracle(tree)).elements())[:6],
+                                                    "oracle_minus_spec": sorted((python_oracle(tree) - spec_nodes).elements())[:6]})
+        else:
+            self.ctx.dist("c01.spec == independent Python oracle")
         self.ctx.dist("hypotheses of C01_node_labels_pipeline (wfStages6 + treeOk stage6) " + ("hold" if r["wf_pipeline"] else "FAIL") + " on the real tree")
         return collections.Counter((t, ln) for t, ln in r["nodes"]), tree
 
     def got_from_labels(self, labels, exp):
-        ptypes = self.ptypes | {t for (t, _) in exp}
+        # `alias`: "import aliases skipped" — no occurrence at all is expected for that type
+        ptypes = self.ptypes | {t for (t, _) in exp} | {"alias"}
         got = collections.Counter()
         for name, spans in labels:
             if name.startswith("node:") and name[5:] in ptypes:
@@ -303,7 +346,7 @@ def run(ctx):
                 ctx.broken.append(f"corr:{stream}:bindings")
                 ctx.cov.setdefault("corr_replay", {"stream": stream, "lines": lines[:60], "impl": ra, "model": rb})
 
-        sources = list(SEEDS) + list(ADVERSARIAL_SEEDS) + MORE_ADVERSARIAL
+        sources = list(SEEDS) + list(ADVERSARIAL_SEEDS) + MORE_ADVERSARIAL + list(WIDE_SEEDS)
         gen = fe.Gen(ctx.rng, max_depth=4, adv=0.25)
         n_gen = 120 if ctx.tier == "quick" else 2000
         for i in range(n_gen):
@@ -340,9 +383,10 @@ def run(ctx):
         t1 = ctx.elapsed()
         pool = ["/a/_type=X", "/_type=M", "/a/_pos=1:1-", "/a/b/_pos=2:1-0-", "/a/b/_type=Y", "/a/b/c/_pos=3:", "/a/x=1",
                 "/ab/_type=Z", "/ab/_pos=4:", "/a/_type=X/_pos=5:", "/a/1/_pos=6:", "/a/b", "/a/", "", "/a/b/c/d=",
-                "/a/_pos=", "x=/a/_type=Q", "/a/_pos=7", "/a/_pos=8:1:2", "/a/b_1/_pos=9:0-"]
-        cases = [list(t) for k in range(4) for t in itertools.product(pool, repeat=k)]
-        for _ in range(2000 if ctx.tier == "quick" else 40000):
+                "/a/_pos=", "x=/a/_type=Q", "/a/_pos=7", "/a/_pos=8:1:2", "/a/b_1/_pos=9:0-",
+                "/a/1/_type=P", "/a/10/_type=P", "/a/10/_pos=10:1-10-", "/a/100/_pos=11:1-100-", "/a/9/_type=P", "/a/99/x=1"]
+        cases = [list(t) for k in range(4 if ctx.tier == "thorough" else 3) for t in itertools.product(pool, repeat=k)]
+        for _ in range(6000 if ctx.tier == "quick" else 40000):
             cases.append([ctx.rng.choice(pool) for _ in range(ctx.rng.randint(4, 9))])
         if node_pat is not None:
             outs = fe.batch(drv, [{"op": "c01.matches", "lines": c} for c in cases])
@@ -362,7 +406,7 @@ def run(ctx):
         t1 = ctx.elapsed()
         e2e = E2E(ctx, drv, (pp, lp, cli_tag, make_db, ut))
         progs = []
-        for i, src in enumerate(SEEDS + ADVERSARIAL_SEEDS + MORE_ADVERSARIAL):
+        for i, src in enumerate(SEEDS + ADVERSARIAL_SEEDS + MORE_ADVERSARIAL + WIDE_SEEDS):
             progs.append((f"seed{i}", src))
         corpus = sorted((core.REPO / "examples").glob("**/programs/**/*.py"))
         ctx.rng.shuffle(corpus)
@@ -498,13 +542,11 @@ def run(ctx):
         "a case = one list of lines searched by both the real regex engine (pattern of feature `node` read from spec.md) and the "
         "hand matcher (non-trivial: at least one match), or one program tagged end to end (non-trivial: at least 3 positioned nodes)"
     )
-    ctx.cov["proved"] = [
-        "C01_node_labels: on the dump of a well-formed tree the matcher yields exactly one (type, own line) per positioned node, nothing else for positioned types",
-        "C01_node_labels_pipeline: the same on what flatten_ast returns (through C15_tweaks_full), for the tweaked tree stage6",
-        "C01_same_text: the parser is given exactly program.source (data flow of the model)",
-    ]
+    ctx.cov["proved"] = sorted(t.split(".")[-1] for t in ctx.cov.get("theorems", {}))
     ctx.cov["exercised_only"] = [
         "ast.parse, Cleanup, get_program (the stored source and its tree are inputs)",
+        "the `same text` clause: that ProgramParser parses exactly the stored source (recorded ast.parse argument vs "
+        "programs_infos[path]['source'] during TagDatabase, both cleanup strategies)",
         "that the real regex engine behaves as the hand matcher (validated on every run, see streams matcher:*; domain: lines "
         "with at most one occurrence of /_type=, where the engine's repeat guards do not prune backtracking over group 1)",
         "the 172 other features and the SQL derivations (only `node:` labels are examined)",
